@@ -146,15 +146,38 @@ func runC39(r *Report) {
 		r.ObSite("R39b", *loader, "lock-released-when-population-fails", okRelease, "after the lock was taken, every path on which the loader or the conditional store failed runs delkey(key, id)")
 		// loader runs only under the lock: guarded by IsRedisNil(err) of the lock request
 		locked := false
+		isLockReq := func(v ssa.Value) bool {
+			if cc, is := v.(*ssa.Call); is {
+				if _, isl := isScript(cc, "acquireLock"); isl {
+					return true
+				}
+				n := CalleeName(cc)
+				return strings.HasSuffix(n, ").Nx") || strings.HasSuffix(n, ".Nx")
+			}
+			return false
+		}
 		for _, g := range DomGuards(loader.Block) {
 			if c, isc := g.Cond.(*ssa.Call); isc && g.Pol && CalleeName(c) == "rueidis.IsRedisNil" {
 				if DependsOn(c.Call.Args[0], func(v ssa.Value) bool {
+					if isLockReq(v) {
+						return true
+					}
+					// the lock request made by an unexported helper of the client: every error it returns comes from one
 					if cc, is := v.(*ssa.Call); is {
-						if _, isl := isScript(cc, "acquireLock"); isl {
-							return true
+						h := cc.Call.StaticCallee()
+						if h == nil || h.Blocks == nil || h.Pkg != fn.Pkg || isExportedName(h.Name()) {
+							return false
 						}
-						n := CalleeName(cc)
-						return strings.HasSuffix(n, ").Nx") || strings.HasSuffix(n, ".Nx")
+						n, all := 0, true
+						for _, hb := range h.Blocks {
+							if ret, isr := hb.Instrs[len(hb.Instrs)-1].(*ssa.Return); isr && len(ret.Results) == 2 {
+								n++
+								if !DependsOn(ret.Results[1], isLockReq) {
+									all = false
+								}
+							}
+						}
+						return n > 0 && all
 					}
 					return false
 				}) {
@@ -176,23 +199,44 @@ func runC39(r *Report) {
 	}
 	r.Anchor("R39b", "Get: setkey call", nSet == 1)
 	nLock := 0
-	for _, s := range Sites(fn, func(in ssa.Instruction) bool {
+	isLockSite := func(in ssa.Instruction) bool {
 		if _, is := isScript(in, "acquireLock"); is {
 			return true
 		}
 		c, ok := in.(*ssa.Call)
 		return ok && strings.HasSuffix(CalleeName(c), "SetKey).Value")
-	}) {
-		nLock++
-		c := s.Instr.(*ssa.Call)
-		ok := false
-		if _, is := isScript(c, "acquireLock"); is {
-			args := variadicElemsOrdered(c.Call.Args[4])
-			ok = len(args) == 2 && args[0] == idV
-		} else {
-			ok = c.Call.Args[1] == idV
+	}
+	// Get itself, and unexported helpers it hands the id to
+	type lockScope struct {
+		f  *ssa.Function
+		id ssa.Value
+	}
+	scopes := []lockScope{{fn, idV}}
+	for _, cs := range Sites(fn, func(in ssa.Instruction) bool { _, ok := in.(*ssa.Call); return ok }) {
+		c := cs.Instr.(*ssa.Call)
+		h := c.Call.StaticCallee()
+		if h == nil || h.Blocks == nil || h.Pkg != fn.Pkg || isExportedName(h.Name()) || len(Sites(h, isLockSite)) == 0 {
+			continue
 		}
-		r.ObSite("R39b", s, "lock-value-is-own-id", ok, "the lock placed on the key is this client's id")
+		for k, a := range c.Call.Args {
+			if a == idV && k < len(h.Params) {
+				scopes = append(scopes, lockScope{h, h.Params[k]})
+			}
+		}
+	}
+	for _, sc := range scopes {
+		for _, s := range Sites(sc.f, isLockSite) {
+			nLock++
+			c := s.Instr.(*ssa.Call)
+			ok := false
+			if _, is := isScript(c, "acquireLock"); is {
+				args := variadicElemsOrdered(c.Call.Args[4])
+				ok = len(args) == 2 && args[0] == sc.id
+			} else {
+				ok = c.Call.Args[1] == sc.id
+			}
+			r.ObSite("R39b", s, "lock-value-is-own-id", ok, "the lock placed on the key is this client's id")
+		}
 	}
 	r.Anchor("R39b", "Get: lock requests (2 variants)", nLock == 2)
 
